@@ -1,6 +1,6 @@
 //! C06 — batch trackers refine the simple ones; one result per scene; no deadlock.
-use similari::prelude::{BatchSort, PositionalMetricType, Universal2DBox, VisualSortObservation};
-use similari::trackers::batch::{PredictionBatchRequest, PredictionBatchResult};
+use similari::prelude::{BatchSort, PositionalMetricType};
+
 use similari::trackers::visual_sort::batch_api::BatchVisualSort;
 use std::collections::{BTreeMap, HashMap};
 use std::sync::mpsc;
@@ -12,46 +12,6 @@ use vh::watchdog::Watchdog;
 use vh::{json, Cli, Report, Rng, Value};
 
 type BatchOut = Vec<(u64, Vec<Rec>)>;
-
-/// submit one batch and hand the result object to a consumer thread that was started BEFORE predict
-fn submit_with_consumer(trk: &mut AnyTracker, batch: &[(u64, Vec<Det>)]) -> mpsc::Receiver<BatchOut> {
-    let (tx, rx) = mpsc::channel();
-    let spawn_consumer = |res: PredictionBatchResult| {
-        std::thread::spawn(move || {
-            let n = res.batch_size();
-            let mut out = vec![];
-            for _ in 0..n {
-                let (s, v) = res.get();
-                out.push((s, v.iter().map(Rec::from_lib).collect::<Vec<_>>()));
-            }
-            let _ = tx.send(out);
-        })
-    };
-    match trk {
-        AnyTracker::BatchSort(t) => {
-            let (mut req, res) = PredictionBatchRequest::<(Universal2DBox, Option<i64>)>::new();
-            for (s, ds) in batch {
-                for d in ds {
-                    req.add(*s, (d.b.lib(), d.custom));
-                }
-            }
-            let _h = spawn_consumer(res);
-            t.predict(req);
-        }
-        AnyTracker::BatchVisual(t) => {
-            let (mut req, res) = PredictionBatchRequest::<VisualSortObservation>::new();
-            for (s, ds) in batch {
-                for d in ds {
-                    req.add(*s, VisualSortObservation::new(d.feature.as_deref(), d.quality, d.b.lib(), d.custom));
-                }
-            }
-            let _h = spawn_consumer(res);
-            t.predict(req);
-        }
-        _ => unreachable!(),
-    }
-    rx
-}
 
 fn check_exactly_once(rep: &mut Report, kind: Kind, idx: u64, bi: usize, batch: &[(u64, Vec<Det>)], out: &BatchOut, ctx: &Value) -> bool {
     let mut got: Vec<u64> = out.iter().map(|x| x.0).collect();
@@ -154,7 +114,7 @@ fn main() {
         if consumer_thread {
             let mut pending: Vec<mpsc::Receiver<BatchOut>> = vec![];
             for b in &batches {
-                pending.push(submit_with_consumer(&mut trk, b));
+                pending.push(trk.submit_with_consumer(b));
                 if let Some(w) = &wd {
                     w.beat();
                 }
